@@ -343,10 +343,57 @@ def gen_specs(tier, seed):
     return specs
 
 
+def generic_modules(start):
+    """generic types with bounds, a where-clause, a lifetime and a method field: the Educe__DebugField wrapper must carry the type's generics"""
+    mods = []
+    decl = '''pub trait Tag { const T: u8; }
+impl<const ID: u8> Tag for Val<ID> { const T: u8 = ID; }
+pub fn fmt_g<G: Tag>(_v: &G, f: &mut Formatter<'_>) -> fmt::Result { log_push(G::T | 0x20, 0); f.write_str("Gg") }
+#[derive(Educe)]
+#[educe(Debug)]
+pub enum Ty<'a, G: Tag, H = u8> where H: Copy {
+    Alpha(G, #[educe(Debug(method(fmt_g)))] G, #[educe(Debug(ignore))] H),
+    Beta { r: &'a G, #[educe(Debug(name(kk), method(fmt_g)))] g: G },
+}
+pub struct Gw<'x, G: Tag>(pub &'x G);
+impl<'x, G: Tag> Debug for Gw<'x, G> { fn fmt(&self, f: &mut Formatter<'_>) -> fmt::Result { fmt_g(self.0, f) } }
+pub struct Or<'x, 'a>(pub &'x Ty<'a, Val<1>, u16>);
+impl<'x, 'a> Debug for Or<'x, 'a> {
+    fn fmt(&self, f: &mut Formatter<'_>) -> fmt::Result {
+        match self.0 {
+            Ty::Alpha(a0, a1, _) => f.debug_tuple("Alpha").field(a0).field(&Gw(a1)).finish(),
+            Ty::Beta { r, g } => f.debug_struct("Beta").field("r", r).field("kk", &Gw(g)).finish(),
+        }
+    }
+}
+pub static SV: Val<1> = Val(9);
+pub fn check(alt: bool) {
+    let x: Ty<'static, Val<1>, u16> = if kani::any::<u8>() & 1 == 1 { Ty::Alpha(Sym::sym(), Sym::sym(), Sym::sym()) } else { Ty::Beta { r: &SV, g: Sym::sym() } };
+    log_reset();
+    let (b1, r1) = render(&x, alt);
+    let l1 = log_take();
+    log_reset();
+    let (b2, r2) = render(&Or(&x), alt);
+    let l2 = log_take();
+    kani::cover!(true, "reached");
+    assert!(r1.is_ok() && r2.is_ok() && !b1.overflow && !b2.overflow);
+    assert!(b1.same(&b2), "rendered bytes differ from the core::fmt builder oracle (generic type with method field)");
+    assert!(l1.1 == l2.1 && l1.0 == l2.0, "values were not formatted by the right formatter in the right order");
+}
+'''
+    h1 = Harness('h_compact', unwind=70, covers=['reached'])
+    h2 = Harness('h_pretty', unwind=70, covers=['reached'], stubs=[STUB])
+    body = PRE + decl + h1.attrs() + 'pub fn h_compact() { check(false); }\n' + h2.attrs() + 'pub fn h_pretty() { check(true); }\n'
+    mods.append(Module(f'm{start:04d}', "generic enum Ty<'a, G: Tag, H = u8> where H: Copy with method / rename+method / ignore fields, at <Val<1>, u16>", body, [h1, h2],
+                       sample=dict(type_definition=decl[:600]), functions=FUNCTIONS))
+    return mods
+
+
 def gen(tier, seed):
     mods = []
     for n, sp in enumerate(gen_specs(tier, seed)):
         mods.append(emit(f'm{n:04d}', spec_id(sp), sp))
+    mods += generic_modules(len(mods))
     return mods
 
 
